@@ -307,14 +307,17 @@ def kindSupported (g : Geom) : Kind → Bool
   | .inst => instSupport g.cont
   | .chmap => chmapSupport g.cont
 
+def isStrKind : Kind → Bool
+  | .str _ => true
+  | _ => false
+
 /-- C12: "for every container documented or implemented to store that item and for all field contents within the documented
     size limits" — a valid item set before the audio on a container that stores the kind must be accepted -/
 def refusedValidGo (g : Geom) : Nat → List SetCall → List Fail
   | _, [] => []
   | room, c :: cs =>
-    let isStr := match c.kind with | .str _ => true | _ => false
-    let bad := !c.late && !c.ok && kindSupported g c.kind && (if isStr then validStrCall g c room else validBlock c)
-    (if bad then [{ tag := "refused-valid" }] else []) ++ refusedValidGo g (if isStr && c.ok then room + 1 else room) cs
+    let bad := !c.late && !c.ok && kindSupported g c.kind && (if isStrKind c.kind then validStrCall g c room else validBlock c)
+    (if bad then [{ tag := "refused-valid" }] else []) ++ refusedValidGo g (if isStrKind c.kind && c.ok then room + 1 else room) cs
 
 /-- C12: "text strings … is returned unchanged by the matching get calls after close and re-open" (a string set after the audio
     may be ignored, it must not come back altered) -/
@@ -415,26 +418,38 @@ def audioFails (g : Geom) (r : Run) (ri : ReInfo) : List Fail :=
    | some rb => if rb.ret == (r.items.length : Int) && rb.err == 0 && rb.data.take r.items.length == r.items then [] else [{ tag := "audio" }]
    | none => [])
 
+/-- the audio write accepted what it was handed -/
+def writeFails (r : Run) : List Fail :=
+  match r.wret with
+  | some (ret, err) => if ret == (r.items.length : Int) && err == 0 then [] else [{ tag := "write" }]
+  | none => []
+
+def closeFails (r : Run) : List Fail :=
+  match r.close with
+  | some c => if c == 0 then [] else [{ tag := "close" }]
+  | none => []
+
+/-- the item clauses on the answers of the re-opened handle -/
+def itemFails (g : Geom) (r : Run) (m : Got) : List Fail :=
+  let e := expOf g r.sets
+  (e.stored g).flatMap (strFail m) ++ bextFail g e m ++ cartFail g e m ++ cuesFail g e m ++ instFail g e m ++ chmapFail g e m ++
+  absentFails g.cont r.sets m
+
+def gotFails (g : Geom) (r : Run) : List Fail :=
+  match r.got with
+  | none => []
+  | some m => itemFails g r m
+
+def reopenFails (g : Geom) (r : Run) : List Fail :=
+  match r.reopen with
+  | none => [{ tag := "reopen-null" }]
+  | some ri => if !ri.ok then [{ tag := "reopen-null" }] else audioFails g r ri ++ refusedValidGo g 0 r.sets ++ gotFails g r
+
 /-- the clauses on one run -/
 def judgeRun (g : Geom) (r : Run) : List Fail :=
   if !r.complete then [{ tag := "crash" }]
   else if !r.openOk then [{ tag := "open-write" }]
-  else
-    let e := expOf g r.sets
-    (match r.wret with
-     | some (ret, err) => if ret == (r.items.length : Int) && err == 0 then [] else [{ tag := "write" }]
-     | none => []) ++
-    (match r.close with | some c => if c == 0 then [] else [{ tag := "close" }] | none => []) ++
-    (match r.reopen with
-     | none => [{ tag := "reopen-null" }]
-     | some ri =>
-       if !ri.ok then [{ tag := "reopen-null" }] else
-       audioFails g r ri ++ refusedValidGo g 0 r.sets ++
-       (match r.got with
-        | none => []
-        | some m =>
-          (e.stored g).flatMap (strFail m) ++ bextFail g e m ++ cartFail g e m ++ cuesFail g e m ++ instFail g e m ++ chmapFail g e m ++
-          absentFails g.cont r.sets m))
+  else writeFails r ++ closeFails r ++ reopenFails g r
 
 /-! ### the twin: "Setting an item the container cannot store, or too late, is reported as failure or ignored, but never alters the
 audio data or other metadata." -/
